@@ -56,6 +56,7 @@ def crc_of_range(eng, folder, start, end):
     if eng.intmode == "bv":
         return eng._rec(z3.ZeroExt(eng.W - 32, t), 32)
     eng.add_axiom(z3.And(t >= 0, t < 2 ** 32))
+    eng.ranges["CRCF_%s" % folder] = (0, 2 ** 32 - 1)
     return t
 
 
